@@ -10,8 +10,16 @@ import numpy as np
 def make_case(rng):
     kind = str(rng.choice(["deterministic", "normal", "mixture", "mixture"]))
     k = int(rng.randint(2, 5))
-    return dict(kind=kind, loc=[float(x) for x in rng.uniform(0.005, 0.2, size=k)], scale=[float(x) for x in rng.uniform(0.001, 0.03, size=k)],
-                w=[float(x) for x in rng.dirichlet(np.ones(k))], key=int(rng.randint(0, 10000)), const_data=bool(rng.rand() < 0.3))
+    w = [float(x) for x in rng.dirichlet(np.ones(k))]
+    loc = [float(x) for x in rng.uniform(0.005, 0.2, size=k)]
+    if kind == "mixture" and rng.rand() < 0.4:
+        # one dominant component and rare ones far out in the tail (a link that stalls for a fraction of a percent of the messages): the tail quantiles are
+        # decided by the rare components
+        rare = [float(x) for x in rng.uniform(0.0005, 0.004, size=k - 1)]
+        w = rare + [1.0 - sum(rare)]
+        loc = [float(x) for x in rng.uniform(0.08, 0.2, size=k - 1)] + [float(rng.uniform(0.005, 0.02))]
+    return dict(kind=kind, loc=loc, scale=[float(x) for x in rng.uniform(0.001, 0.03, size=k)],
+                w=w, key=int(rng.randint(0, 10000)), const_data=bool(rng.rand() < 0.3))
 
 
 def run_case(case):
@@ -30,7 +38,7 @@ def run_case(case):
         d = distrax.MixtureSameFamily(mixture_distribution=distrax.Categorical(probs=jnp.array(case["w"])), components_distribution=comp)
         cdf = lambda x: float(sum(w * distrax.Normal(l, s).cdf(x) for w, l, s in zip(case["w"], case["loc"], case["scale"])))
     D = base.StaticDist.create(d)
-    qs = [0.05, 0.25, 0.5, 0.75, 0.9, 0.99]
+    qs = [0.05, 0.25, 0.5, 0.75, 0.9, 0.99, 0.999]
     vals = [float(np.asarray(D.quantile(q)).reshape(-1)[0]) for q in qs]
     checks = len(qs)
     for a, b in zip(vals, vals[1:]):
@@ -41,6 +49,26 @@ def run_case(case):
     for q, v in zip(qs, vals):
         if case["kind"] != "deterministic" and abs(cdf(v) - q) > tol:
             bad.append(f"CDF(quantile({q})) = {cdf(v):.4f}")
+    if case["kind"] == "mixture":
+        # "within grid resolution": the returned value is within a few cells of the true quantile of the mixture (float64 bisection of its CDF);
+        # the search grid spans the components' 0.1% .. 99.9% quantiles in 1000 points
+        import math
+        cdf64 = lambda x: sum(w * 0.5 * (1.0 + math.erf((x - l) / (s_ * math.sqrt(2.0)))) for w, l, s_ in zip(case["w"], case["loc"], case["scale"]))
+        z = 3.0902323061678132
+        lo_g, hi_g = min(l - z * s_ for l, s_ in zip(case["loc"], case["scale"])), max(l + z * s_ for l, s_ in zip(case["loc"], case["scale"]))
+        cell = (hi_g - lo_g) / 1000.0
+        for q, v in zip(qs, vals):
+            a_, b_ = lo_g - 1.0, hi_g + 1.0
+            for _ in range(80):
+                m_ = 0.5 * (a_ + b_)
+                if cdf64(m_) < q:
+                    a_ = m_
+                else:
+                    b_ = m_
+            true_q = 0.5 * (a_ + b_)
+            checks += 1
+            if abs(v - true_q) > 3.0 * cell + 1e-6:
+                bad.append(f"quantile({q}) = {v:.6f}, the mixture's true quantile is {true_q:.6f} (grid cell {cell:.6f})")
     if case["kind"] == "deterministic" and any(abs(v - case["loc"][0]) > 1e-6 for v in vals):
         bad.append(f"deterministic quantiles {vals} != {case['loc'][0]}")
     # sampling: non-negative, replayable, new rng state
@@ -124,6 +152,8 @@ def main():
         cases[1]["kind"] = "normal"
     if len(cases) > 2:
         cases[2]["const_data"], cases[2]["const_value"] = True, 0.0      # boundary: all-zero delays
+    if len(cases) > 3:       # always one mixture with a dominant component and a rare far tail
+        cases[3].update(kind="mixture", w=[0.006, 0.994], loc=[0.05, 0.01], scale=[0.005, 0.002])
     import multiprocessing as mp
     with mp.get_context("spawn").Pool(min(10, a.n)) as pool:
         outs = pool.map(_safe, cases)
